@@ -3,7 +3,7 @@ from __future__ import annotations
 
 import ast
 import re
-from typing import List, Optional
+from typing import List, Optional, Tuple
 
 from vlib import match, source, sub
 from vlib.cfg import CFG, own_calls
@@ -36,6 +36,106 @@ def wrapped_in_int(e: ast.AST, stop: ast.AST) -> bool:
     return False
 
 
+LIST_MUTATORS = {"append", "extend", "insert", "remove", "pop", "clear", "sort", "reverse", "__setitem__", "__iadd__"}
+PROTECTED_KEYS = {"represents"}
+
+
+def placeholder_mutations(fn: ast.AST) -> Tuple[int, List[Tuple[ast.AST, str]]]:
+    """(number of placeholder-table reads, [(offending node, why)]) for one function outside the owner module.
+    Flow-sensitive: the status of a local at a program point is that of its reaching definitions, so
+    ``data = table[k]; data = deep_copy(data)`` is a private copy afterwards."""
+    from vlib import flow
+    reads = sum(1 for n in source.walk_own(fn) if isinstance(n, ast.Attribute) and n.attr == "_placeholders")
+    if not reads:
+        return 0, []
+    cfg = CFG(fn)
+    rd_cache = {}
+
+    def rdefs(name: str):
+        if name not in rd_cache:
+            rd_cache[name] = flow.reaching_defs(cfg, name, ignore_labels=())
+        return rd_cache[name]
+
+    def node_of(x: ast.AST):
+        st = source.stmt_of(x)
+        ns = [n for n in cfg.nodes if n.ast is st or (n.ast is not None and n.kind in ("test", "for", "with") and any(y is x for y in ast.walk(n.ast)))]
+        return ns[0] if ns else None
+    RANK = {"safe": 0, None: 0, "table": 1, "shallow": 2, "entry": 3, "inner": 4}
+
+    def worst(kinds):
+        kinds = list(kinds)
+        return max(kinds, key=lambda k: RANK.get(k, 0)) if kinds else None
+
+    def origin(e: ast.AST, at, depth: int = 0):
+        """'table' | 'entry' | 'shallow' | 'inner' | 'safe' | None for expression e evaluated at CFG node `at`."""
+        if depth > 8 or e is None:
+            return None
+        if isinstance(e, ast.Attribute) and e.attr == "_placeholders":
+            return "table"
+        if isinstance(e, ast.Name):
+            if at is None:
+                return None
+            ds = rdefs(e.id).get(at.id, frozenset())
+            kinds = []
+            for d in ds:
+                if d < 0:
+                    continue
+                dn = cfg.nodes[d]
+                v = flow.def_value(cfg, d, e.id)
+                if v is not None:
+                    kinds.append(origin(v, dn, depth + 1))
+                elif dn.kind == "for" and isinstance(dn.ast, ast.For):
+                    it = dn.ast.iter
+                    if isinstance(it, ast.Call) and isinstance(it.func, ast.Attribute) and it.func.attr in ("values", "items") \
+                            and origin(it.func.value, dn, depth + 1) == "table":
+                        kinds.append("entry")
+            return worst(kinds)
+        if isinstance(e, ast.Subscript):
+            base = origin(e.value, at, depth + 1)
+            if base == "table":
+                return "entry"
+            if base in ("entry", "shallow") and isinstance(e.slice, ast.Constant) and e.slice.value in PROTECTED_KEYS:
+                return "inner"
+            return None
+        if isinstance(e, ast.Call):
+            cn = call_name(e) or ""
+            if cn.split(".")[-1] in ("deep_copy", "deepcopy"):
+                return "safe"
+            if isinstance(e.func, ast.Attribute) and e.func.attr == "get" and e.args:
+                base = origin(e.func.value, at, depth + 1)
+                if base == "table":
+                    return "entry"
+                if base in ("entry", "shallow") and isinstance(e.args[0], ast.Constant) and e.args[0].value in PROTECTED_KEYS:
+                    return "inner"
+                return None
+            if cn in ("dict", "copy.copy") and e.args:
+                return "shallow" if origin(e.args[0], at, depth + 1) in ("entry", "shallow") else None
+            if isinstance(e.func, ast.Attribute) and e.func.attr == "copy" and not e.args:
+                return "shallow" if origin(e.func.value, at, depth + 1) in ("entry", "shallow") else None
+            if cn in ("list", "tuple", "sorted", "set") and e.args:
+                return "safe"
+            return None
+        if isinstance(e, ast.Dict):
+            if any(k is None and origin(v, at, depth + 1) in ("entry", "shallow") for k, v in zip(e.keys, e.values)):
+                return "shallow"
+        return None
+    bad: List[Tuple[ast.AST, str]] = []
+    for n in source.walk_own(fn):
+        at = node_of(n) if isinstance(n, (ast.Call, ast.Assign, ast.AugAssign, ast.AnnAssign)) else None
+        if isinstance(n, ast.Call) and isinstance(n.func, ast.Attribute) and n.func.attr in LIST_MUTATORS and origin(n.func.value, at) == "inner":
+            bad.append((n, "%s() on the shared 'represents' list" % n.func.attr))
+        tg = n.targets if isinstance(n, ast.Assign) else [n.target] if isinstance(n, (ast.AugAssign, ast.AnnAssign)) else []
+        for t in tg:
+            if isinstance(t, ast.Subscript) and isinstance(t.slice, ast.Constant) and t.slice.value in PROTECTED_KEYS \
+                    and origin(t.value, at) == "entry":
+                bad.append((n, "the 'represents' entry of the stored placeholder is replaced"))
+            elif isinstance(t, ast.Subscript) and origin(t.value, at) == "inner":
+                bad.append((n, "an element of the shared 'represents' list is overwritten"))
+            elif isinstance(n, ast.AugAssign) and origin(t, at) == "inner":
+                bad.append((n, "the shared 'represents' list is extended in place"))
+    return reads, bad
+
+
 def run(ctx) -> None:
     ctx.explanation = (
         "Sibling cross-check of every ordering construct keyed on the iteration prefix of a looped component name (must "
@@ -49,6 +149,9 @@ def run(ctx) -> None:
     ctx.rule("C05.R3-loop-carried-from-previous", "loop bindings are rewritten to iteration_no-1, only when iteration_no > 0 and not for loopref/loopoutput")
     ctx.rule("C05.R4-no-stage-offset-drift", "rewritten loop bindings are not stored back; next-iteration works on a deep copy and persists the result")
     ctx.rule("C05.R5-anchored-rewrite", "rewrite_all_references substitutes through an escaped, boundary-anchored pattern")
+    ctx.rule("C05.R7-instance-set-owned-by-graph", "the 'represents' list of a placeholder (the instances 0..k of a looped component) is "
+             "modified only inside graph.py: code elsewhere that obtains a placeholder entry works on a deep copy before it "
+             "appends to / rewrites that list (a shallow copy shares the list)")
     ctx.rule("C05.R6-state-from-latest", "currentCondition/currentIteration derive from the instance with the numerically highest iteration")
 
     mods = [ctx.repo.module(r) for r in SCOPE]
@@ -279,6 +382,31 @@ def run(ctx) -> None:
     ctx.floor("C05.R5-anchored-rewrite", len(sites), 1, "substitution sites in rewrite_all_references")
     for s in sites:
         check_site(ctx, "C05.R5-anchored-rewrite", rar, s, "a reference found in a looped component")
+
+    # ---------------- R7 -------------------------------------------------------------------------------
+    n_reads = 0
+    for mod in ctx.repo.modules():
+        if not mod.rel.startswith("python/experiment/") or mod.rel.endswith("model/graph.py"):
+            continue
+        if "_placeholders" not in mod.text:
+            continue
+        for q, f in mod.functions.items():
+            reads, bad = placeholder_mutations(f)
+            if not reads:
+                continue
+            n_reads += reads
+            ctx.analysed(f)
+            for (node, why) in bad:
+                ctx.ob("C05.R7-instance-set-owned-by-graph", node, False,
+                       "%s modifies the instance list of a placeholder outside graph.py (%s): the list is shared with "
+                       "WorkflowGraph._placeholders, so after it a :loopref/:loopoutput reference resolves to 'instances 0..k' plus "
+                       "whatever was added (e.g. the loop's condition component)" % (q, why),
+                       construct="%s: %s" % (q, short(node, 70)))
+            if not bad:
+                ctx.ob("C05.R7-instance-set-owned-by-graph", f, True,
+                       "%s reads placeholder entries without modifying their instance list (or works on a deep copy)" % q,
+                       construct="%s reads _placeholders" % q)
+    ctx.floor("C05.R7-instance-set-owned-by-graph", n_reads, 5, "reads of WorkflowGraph._placeholders outside graph.py")
 
     # ---------------- R6 -------------------------------------------------------------------------------
     cds = g.func("WorkflowGraph.compute_dowhile_state")
